@@ -4,6 +4,7 @@
   statement holds for any hash function, and agreement is stated modulo an exhibited collision.
 -/
 import Protobom.Proofs.Equal
+import Protobom.Proofs.EdgeDiscr
 
 namespace Protobom.C13
 open Protobom Gen
@@ -123,5 +124,37 @@ theorem finding_hash_map_collision :
       concatStrings, List.lookup]
     decide
   rw [w1, w2]
+
+/-! ### edges: equality discriminates
+
+For nodes the flattened string is not injective (the recorded separator finding above). For edges it
+is, as soon as the identifiers are free of the two separator characters the format uses. -/
+
+/-- **edge equality is exactly "same source, same type, same multiset of targets"** for edges of a
+    type the schema defines whose source has no `:` and whose targets are non-empty and have no `+`:
+    in particular an edge with a repeated target never equals an edge that repeats another one, and
+    the relation cannot depend on which operand is the receiver -/
+theorem edge_equal_iff (e f : Edge)
+    (hs : ':' ∉ e.src.toList) (hs' : ':' ∉ f.src.toList)
+    (ht : e.ty ∈ Schema.edgeTypes.map (·.2)) (ht' : f.ty ∈ Schema.edgeTypes.map (·.2))
+    (hto : ∀ t ∈ e.tos, t ≠ "" ∧ '+' ∉ t.toList) (hto' : ∀ t ∈ f.tos, t ≠ "" ∧ '+' ∉ t.toList) :
+    e.equal f = true ↔ (e.src = f.src ∧ e.ty = f.ty ∧ e.tos.Perm f.tos) := by
+  constructor
+  · intro h
+    exact edge_flat_discriminates e f hs hs' ht ht' hto hto' (by simpa [Edge.equal] using h)
+  · rintro ⟨h1, h2, h3⟩
+    exact edge_order_insensitive e f h1 h2 h3
+
+/-- non-vacuity and the case the property text names: `[a, a, b]` against `[a, b, b]` -/
+example : ({ src := "app", ty := 5, tos := ["lib-a", "lib-a", "lib-b"] } : Edge).equal
+    { src := "app", ty := 5, tos := ["lib-a", "lib-b", "lib-b"] } = false := by
+  rw [Bool.eq_false_iff]
+  intro h
+  have := (edge_equal_iff _ _ (by decide) (by decide) (by decide) (by decide) (by decide) (by decide)).mp h
+  have hc := this.2.2.count_eq "lib-a"
+  simp at hc
+
+example : (5 : Int) ∈ Schema.edgeTypes.map (·.2) ∧ ':' ∉ "app".toList ∧
+    (∀ t ∈ ["lib-a", "lib-a", "lib-b"], t ≠ "" ∧ '+' ∉ t.toList) := by decide
 
 end Protobom.C13
